@@ -51,6 +51,10 @@ func (s *Sizes) Alignof(T types.Type) int64 {
 	if a < 1 {
 		return 1
 	}
+	// complex{64,128} are aligned like [2]float{32,64}.
+	if t, ok := T.Underlying().(*types.Basic); ok && t.Info()&types.IsComplex != 0 {
+		a /= 2
+	}
 	if a > s.MaxAlign {
 		return s.MaxAlign
 	}
